@@ -100,6 +100,18 @@ def _cat_lists_differ(batches, partition_on=()):
     return False
 
 
+def _cat_lists_not_prefixes_of_last(batches, partition_on=()):
+    """Every row is labelled through the dictionary written last: that is right exactly when each batch's category list
+    is a prefix of the last batch's list (same labels at the same codes); anything else is the recorded finding's region."""
+    names = [c["name"] for c in batches[0]["cols"] if c["kind"] == "category" and c["name"] not in partition_on]
+    for nm in names:
+        lists = [next(c["cats"] for c in b["cols"] if c["name"] == nm) for b in batches]
+        last = lists[-1]
+        if any(l != last[: len(l)] for l in lists):
+            return True
+    return False
+
+
 @predicate
 def c07_categorical_dictionaries(case, out):
     """Row groups written from batches whose categorical columns list different categories: every
@@ -109,7 +121,11 @@ def c07_categorical_dictionaries(case, out):
         return False
     if sig.startswith("read_raised") and "category" not in out.get("detail", "").lower() and "IndexError" not in sig:
         return False
-    return _cat_lists_differ(case["batches"], case.get("partition_on") or ())
+    # the state that was read: the create batch and the appends up to the one after which the check failed
+    import re
+    m = re.match(r"after append (\d+)", out.get("detail", ""))
+    upto = [int(m.group(1)) + 1] if m else range(2, len(case["batches"]) + 1)
+    return any(_cat_lists_not_prefixes_of_last(case["batches"][:k], case.get("partition_on") or ()) for k in upto)
 
 
 @predicate
